@@ -3,7 +3,8 @@
    analyze, group_views are universally quantified): they say that cmd_run's loop, as modelled in
    C11/Model.v, is exactly `analyze (concat (map (classify ∘ parse_source) non-supplemental readable
    sources))`, that a change to one source / one setting moves only the segment it governs, and that a
-   missing or unreadable source is reported and removes nothing else.
+   missing or unreadable source — a supplemental one included, since the fix of commands/run.py that names
+   every supplemental source that could not be loaded — is reported and removes nothing else.
    PARTIAL: the loop is a HAND model of commands/run.py (the glue is modelled, not verified, and the
    stages are parameters proved elsewhere: C05 rows, C01/C02/C09 engine, C06 totals, C10 views, C12
    report).  The weight of C11 is therefore on the tie: harness/c11.py runs the real CLI on generated
@@ -76,18 +77,30 @@ Theorem c11_missing_source_isolated :
          (classify : Rules -> mode -> supp_data SuppRow -> string -> Row -> Txn)
          (analyze : list Txn -> Stats) (group_views : Views -> Stats -> Sections)
          R m v l1 (s : source Settings Content) l2 st,
-    s_supp s = false -> st = Missing \/ (st = Unreadable /\ s_generic s = true) ->
     let run := run_up parse_source load_supp classify analyze group_views in
     let contr := contribution parse_source classify in
-    let b' := mkBudget (l1 ++ set_state s st :: l2) R m v in
-    let b0 := mkBudget (l1 ++ l2) R m v in
-    let supp := supp_of load_supp (l1 ++ s :: l2) in
-    report_txns (run b') = flat_map (contr R m supp) l1 ++ flat_map (contr R m supp) l2 /\
-    report_txns (run b') = report_txns (run b0) /\
-    (forall t st' sec ws, run b0 = Report t st' sec ws -> exists ws', run b' = Report t st' sec ws') /\
-    In (match st with Missing => FileNotFound (s_name s) | _ => ParseError (s_name s) end)
-       (report_warnings (run b')).
-Proof. exact missing_source_isolated. Qed.
+    let b' := mkBudget (l1 ++ set_state s st :: l2) R m v in    (* the source's file is gone / cannot be read *)
+    let b0 := mkBudget (l1 ++ l2) R m v in                       (* the budget without that source *)
+    (* a transaction source *)
+    (s_supp s = false -> st = Missing \/ (st = Unreadable /\ s_generic s = true) ->
+       let supp := supp_of load_supp (l1 ++ s :: l2) in
+       report_txns (run b') = flat_map (contr R m supp) l1 ++ flat_map (contr R m supp) l2 /\
+       report_txns (run b') = report_txns (run b0) /\
+       (forall t st' sec ws, run b0 = Report t st' sec ws -> exists ws', run b' = Report t st' sec ws') /\
+       In (match st with Missing => FileNotFound (s_name s) | _ => ParseError (s_name s) end)
+          (report_warnings (run b'))) /\
+    (* a supplemental (query-only) source: it is reported too, the parsed rows are untouched and the report is
+       that of the budget without it *)
+    (s_supp s = true -> st <> Present ->
+       In (SuppNotLoaded (s_name s)) (report_warnings (run b')) /\
+       parsed_rows parse_source (l1 ++ set_state s st :: l2) = parsed_rows parse_source (l1 ++ s :: l2) /\
+       report_txns (run b') = report_txns (run b0) /\
+       (forall t st' sec ws, run b0 = Report t st' sec ws -> exists ws', run b' = Report t st' sec ws')).
+Proof.
+  intros. split; intros.
+  - now apply missing_source_isolated.
+  - now apply missing_supplemental_reported.
+Qed.
 Print Assumptions c11_missing_source_isolated.
 
 (* ---- non-vacuity: a concrete instance (rows are numbers, a transaction is (source, row, rule-mode),
@@ -112,3 +125,10 @@ Example c11_example_missing :
                       (mkBudget [ex_src "A" false Present [1; 2]; set_state s Missing] 10 FirstMatch None))
   = [("A", 101, 10); ("A", 102, 10)]%string.
 Proof. vm_compute. split; reflexivity. Qed.
+(* ... and the supplemental clause: "Orders" of the example losing its file is reported (and rule outcomes that
+   looked at it change: the third component drops from 11 to 10) *)
+Example c11_example_missing_supplemental :
+  run_up ex_parse ex_supp ex_classify (@length _) (fun v st => v + st)
+         (mkBudget [ex_src "A" false Present [1]; set_state (ex_src "Orders" true Present [7]) Missing] 10 FirstMatch None)
+  = Report [("A", 101, 10)]%string 1 None [SuppNotLoaded "Orders"].
+Proof. vm_compute. reflexivity. Qed.
